@@ -108,33 +108,35 @@ func sweepC19(a *Analysis, r *Registry, b *B) {
 				phs = append(phs, ph)
 			}
 		}
-		inits, steps := S.Int(0), S.Int(0)
+		// L: the index that starts at 0 and goes up by one per iteration (whichever counter drives
+		// it: an ascending i, or len-1-hi for a descending hi); H = len-1-L: the other one
+		sub0, sub1 := map[AtomID]*RF{}, map[AtomID]*RF{}
+		okRec := len(phs) > 0
 		for _, ph := range phs {
 			in, nx := recurrenceOrNil(fc, ph)
 			if in == nil {
-				continue
+				okRec = false
+				break
 			}
-			inits = inits.Add(in)
-			steps = steps.Add(nx.Sub(ph))
-			if in.Equal(S.Int(0)) && nx.Sub(ph).Equal(S.Int(1)) {
-				lo = ph
+			sub0[ph.SingleAtom().ID] = in
+			sub1[ph.SingleAtom().ID] = nx
+		}
+		for _, e := range []*RF{i0, i1} {
+			if okRec && e.Subst(sub0).Equal(S.Int(0)) && e.Subst(sub1).Sub(e).Equal(S.Int(1)) {
+				lo = e
 			}
 		}
-		if len(phs) == 2 && inits.Equal(S.MakeFn("len", xs).Sub(S.Int(1))) && steps.Equal(S.Int(0)) && lo != nil {
+		if lo != nil && (sum.Equal(S.MakeFn("len", xs).Sub(S.Int(1))) || (sum.Subst(sub0).Equal(S.MakeFn("len", xs).Sub(S.Int(1))) && sum.Subst(sub1).Equal(sum))) {
 			mirror = true
-		}
-		if len(phs) == 1 && lo != nil && sum.Equal(S.MakeFn("len", xs).Sub(S.Int(1))) {
-			mirror = true // one counter, the other index computed as len-1-i
 		}
 		if !mirror {
 			r.Fail(rB, name+"/mirror", b.pos(fn), "the two indices are not i (from 0 upwards) and len(xs)-1-i")
 			return
 		}
-		r.OK(rB, name+"/mirror", b.pos(fn), "the indices are i (from 0, +1) and len(xs)-1-i")
-		hi := sum.Sub(lo)
-		if !(i0.Equal(lo) || i1.Equal(lo)) {
-			r.Fail(rB, name+"/mirror", b.pos(fn), "the lower index is not the counter itself")
-			return
+		r.OK(rB, name+"/mirror", b.pos(fn), "the indices are i (from 0, +1 per iteration) and len(xs)-1-i")
+		hi := i0
+		if lo.Equal(i0) {
+			hi = i1
 		}
 		hdr := loops[0].Header
 		_, gc, _, msg := b.loopGuard(fc, hdr)
